@@ -1,9 +1,14 @@
 package c01
 
 import (
+	"encoding/binary"
+	"sync"
+	"sync/atomic"
+
 	"bytes"
 	"fmt"
 	"strings"
+	"verif/internal/ref/lzref"
 
 	"github.com/la5nta/wl2k-go/fbb"
 
@@ -12,7 +17,7 @@ import (
 
 // Fixed regression scenarios: one per boundary named in the property / defect shape of DESIGN.md
 // section 7. They are part of both tiers.
-var fixedNames = []string{"latin1-subject-37", "latin1-subject-34", "ascii-subject-128", "three-blocks-both-ways", "all-deferred", "all-rejected", "equal-sizes", "empty-both", "one-byte-body", "gzip-three-blocks"}
+var fixedNames = []string{"latin1-subject-37", "latin1-subject-34", "ascii-subject-128", "three-blocks-both-ways", "all-deferred", "all-rejected", "equal-sizes", "empty-both", "one-byte-body", "gzip-three-blocks", "distinguished-crc-values"}
 
 func mk(mid, from, to, subject string, body []byte, files ...b2fx.FileSpec) b2fx.MsgSpec {
 	return b2fx.MsgSpec{MID: mid, From: from, To: []string{to}, Subject: subject, Body: body, Files: files, Shape: fmt.Sprintf("subject[%d] body[%d] files[%d]", len(subject), len(body), len(files))}
@@ -62,6 +67,62 @@ func fixedScenario(name string) (*b2fx.Scenario, error) {
 			sc.MsgsA = append(sc.MsgsA, mk(fmt.Sprintf("EQ%d", 9-i), A, B, "same size", []byte("identical body\r\n")))
 		}
 		sc.Seg = 1
+	case "distinguished-crc-values":
+		// messages whose compressed stream begins with a distinguished CRC-16 value (the first two bytes of a B2
+		// payload): all zero, all ones, and the gzip magic number in either byte order - a receiver that takes
+		// such a value for "no checksum" or sniffs the payload type by its first bytes meets them 1 time in 65536
+		want := map[uint16]bool{0x0000: true, 0xffff: true, 0x8b1f: true, 0x1f8b: true}
+		type hit struct {
+			v uint16
+			m b2fx.MsgSpec
+			i int
+		}
+		const workers = 8
+		hits := make(chan hit, 4096)
+		var bound atomic.Int64 // candidates above this index need not be looked at any more
+		bound.Store(4000000)
+		var wg sync.WaitGroup
+		for g := 0; g < workers; g++ {
+			wg.Add(1)
+			go func() {
+				defer wg.Done()
+				for i := g; int64(i) <= bound.Load(); i += workers {
+					// the identifier is part of the message: the candidate keeps it
+					m := mk(fmt.Sprintf("CRC%d", i), A, B, "value search", []byte(fmt.Sprintf("searching for a checksum value, candidate %d\r\n", i)))
+					c, err := m.Canonical()
+					if err != nil {
+						return
+					}
+					if v := binary.LittleEndian.Uint16(lzref.EncodeB2(c)); want[v] {
+						m.Shape = fmt.Sprintf("stream CRC-16 %04x", v)
+						hits <- hit{v, m, i}
+					}
+				}
+			}()
+		}
+		go func() { wg.Wait(); close(hits) }()
+		// the smallest candidate of every value (independent of goroutine scheduling): once every value has been
+		// seen, nothing above the largest index seen can be the smallest any more
+		best := map[uint16]hit{}
+		for h := range hits {
+			if b, ok := best[h.v]; !ok || h.i < b.i {
+				best[h.v] = h
+			}
+			if len(best) == len(want) {
+				top := 0
+				for _, b := range best {
+					top = max(top, b.i)
+				}
+				if int64(top) < bound.Load() {
+					bound.Store(int64(top))
+				}
+			}
+		}
+		for _, v := range []uint16{0x0000, 0x1f8b, 0x8b1f, 0xffff} {
+			if b, ok := best[v]; ok {
+				sc.MsgsA = append(sc.MsgsA, b.m)
+			}
+		}
 	case "empty-both":
 	case "one-byte-body":
 		sc.MsgsA = []b2fx.MsgSpec{mk("1", A, B, "s", []byte{0}, b2fx.FileSpec{Name: "e", Data: nil})}
